@@ -85,18 +85,26 @@ Definition halfstep (solve : mat -> vec -> vec) (sys : srow -> mat * vec) (left 
   zipw (row_update solve sys) left rows.
 
 (* ---- what the solver returned, checked through the residual:
-   |A x - y|_inf <= tol * (|A|_inf |x|_inf + |y|_inf)   (normwise backward error);  tol = 0 is exactness *)
+   |A x - y|_inf <= tol * (|A|_inf |x|_inf + |y|_inf + sc)   (normwise backward error);  tol = 0 is exactness.
+   `sc` is the size of the DATA the right-hand side was formed from: y = M^T v is computed in floating
+   point with an error proportional to |M|^T |v|, not to |y|; when the terms of y cancel (two history items
+   with the same embedding and opposite normalised ratings: y = 0 exactly) the code's y, hence its x, is
+   rounding noise of that size and |y| alone is no measure of it.  sc = | |M|^T |v| |_inf (`row_scale`). *)
 Definition vnorm (x : vec) : Q := fold_right (fun a m => Qmaxq (Qabs a) m) 0 x.
 Definition mnorm (A : mat) : Q := fold_right (fun r m => Qmaxq (Qsum (map Qabs r)) m) 0 A.
-Definition resid_ok (tol : Q) (A : mat) (x y : vec) : bool :=
+Definition resid_ok (tol sc : Q) (A : mat) (x y : vec) : bool :=
   Nat.eqb (length x) (length y) && Nat.eqb (length A) (length y) &&
-  Qle_bool (vnorm (vsub (matvec A x) y)) (tol * (mnorm A * vnorm x + vnorm y)).
+  Qle_bool (vnorm (vsub (matvec A x) y)) (tol * (mnorm A * vnorm x + vnorm y + sc)).
 Definition veqb (a b : vec) : bool := all2 Qeq_bool a b.
+(* | |M|^T |v| |_inf (explicit: y = M^T v)  and  | |M|^T (|v| + 1) |_inf (implicit: y = M^T (v + 1)),  M = other[cols, :] *)
+Definition row_scale (fb : feedback) (k : nat) (other : mat) (row : srow) : Q :=
+  vnorm (mtv k (map (map Qabs) (select k other (map fst row)))
+               (map (fun v => match fb with Explicit => Qabs v | Implicit => Qabs v + 1 end) (map snd row))).
 
-Definition row_ok (tol : Q) (sys : srow -> mat * vec) (old : vec) (row : srow) (new : vec) : bool :=
+Definition row_ok (tol : Q) (sys : srow -> mat * vec) (sc : srow -> Q) (old : vec) (row : srow) (new : vec) : bool :=
   match row with
   | [] => veqb new old
-  | _ => let Ay := sys row in resid_ok tol (fst Ay) new (snd Ay)
+  | _ => let Ay := sys row in resid_ok tol (sc row) (fst Ay) new (snd Ay)
   end.
 Fixpoint all3 {A B C} (f : A -> B -> C -> bool) (a : list A) (b : list B) (c : list C) : bool :=
   match a, b, c with
@@ -104,8 +112,8 @@ Fixpoint all3 {A B C} (f : A -> B -> C -> bool) (a : list A) (b : list B) (c : l
   | x :: a', y :: b', z :: c' => f x y z && all3 f a' b' c'
   | _, _, _ => false
   end.
-Definition halfstep_ok (tol : Q) (sys : srow -> mat * vec) (left : mat) (rows : list srow) (left' : mat) : bool :=
-  all3 (row_ok tol sys) left rows left'.
+Definition halfstep_ok (tol : Q) (sys : srow -> mat * vec) (sc : srow -> Q) (left : mat) (rows : list srow) (left' : mat) : bool :=
+  all3 (row_ok tol sys sc) left rows left'.
 
 (* ---- the training loop: user half-step then item half-step per epoch, each reading the other
    side's current values.  A recorded run is the list of observed half-steps. ---- *)
@@ -122,9 +130,9 @@ Fixpoint train_ok (tol : Q) (fb : feedback) (k : nat) (lam_u lam_i : Q) (ui iu :
       match hs_side su, hs_side si with
       | SUser, SItem =>
           if meqb (hs_before su) P && meqb (hs_other su) Qm
-             && halfstep_ok tol (row_system fb k lam_u Qm) P ui (hs_after su)
+             && halfstep_ok tol (row_system fb k lam_u Qm) (row_scale fb k Qm) P ui (hs_after su)
              && meqb (hs_before si) Qm && meqb (hs_other si) (hs_after su)
-             && halfstep_ok tol (row_system fb k lam_i (hs_after su)) Qm iu (hs_after si)
+             && halfstep_ok tol (row_system fb k lam_i (hs_after su)) (row_scale fb k (hs_after su)) Qm iu (hs_after si)
           then train_ok tol fb k lam_u lam_i ui iu (hs_after su) (hs_after si) rest
           else None
       | _, _ => None
@@ -189,10 +197,10 @@ Definition foldin_implicit (solve : mat -> vec -> vec) (k : nat) (OtOr : mat) (i
 Definition foldin_ok_explicit (tol : Q) (k : nat) (lam : Q) (items : mat) (row : srow) (x : vec) : bool :=
   match row with
   | [] => veqb x (vzero k)
-  | _ => let Ay := foldin_system_explicit k lam items row in resid_ok tol (fst Ay) x (snd Ay)
+  | _ => let Ay := foldin_system_explicit k lam items row in resid_ok tol (row_scale Explicit k items row) (fst Ay) x (snd Ay)
   end.
 Definition foldin_ok_implicit (tol : Q) (k : nat) (OtOr : mat) (items : mat) (row : srow) (x : vec) : bool :=
-  let Ay := foldin_system_implicit k OtOr items row in resid_ok tol (fst Ay) x (snd Ay).
+  let Ay := foldin_system_implicit k OtOr items row in resid_ok tol (row_scale Implicit k items row) (fst Ay) x (snd Ay).
 
 (* ---- scoring: dot product of the item embedding with the user embedding, plus (explicit) the
    bias terms b_g + b_i + b_u; an item unknown to the model has no score ---- *)
